@@ -160,9 +160,12 @@ func drawAtk(c *kernel.Choices, script bool) atk {
 			a.inner = false
 		}
 	case 4: // a realm value that is not the live cur
-		a.rlm, a.acq, a.from = 1, pick(0, 0, 2, 3), pick(3, 4, 2, 0)
-		if !atkOps[a.op].usesB {
-			a.op = pick(0, 1, 3, 6, 8)
+		a.rlm, a.acq, a.from = 1, pick(0, 0, 0, 2, 3), pick(3, 3, 4, 4, 2, 0)
+		if !atkOps[a.op].usesB || c.Bool() {
+			a.op = pick(0, 0, 0, 6, 7, 1, 3, 8)
+		}
+		if a.bt == 0 {
+			a.bt = 1 // (an origin-send banker needs more than a stale realm value)
 		}
 	case 5: // entering the vault's own spending functions
 		a.op = 9 + c.Intn(7)
